@@ -128,7 +128,7 @@ def pop_case(draw):
     fp = 0
     for pi in range(n_pops):
         nt = draw(st.sampled_from(sorted(ntypes)))
-        n = draw(st.sampled_from([1, 2, 2, 3, 3, 4, 5, 6]))
+        n = draw(st.sampled_from([1, 2, 2, 3, 3, 4, 5, 6, 2, 3, 4, 5, 6, 2, 3, 4]))
         o = ntypes[nt]["ops"][0]
         params = {}
         for v in ops[o]["vars"]:
@@ -192,7 +192,8 @@ def pop_case(draw):
     return {"pspec": {"ops": ops, "ntypes": ntypes, "pops": pops, "conns": conns},
             "cfg": {"dt": 0.01, "steps": draw(st.integers(10, 25)),
                     # the judged run is the first translation of the template objects, or follows an earlier one
-                    "warmup": draw(st.sampled_from([None, None, None, "run", "run_other_dt", "get_run_func"]))}}
+                    "warmup": draw(st.sampled_from([None, None, None, "run", "run_other_dt", "get_run_func", "run_in_place",
+                                                    "run_in_place"]))}}
 
 
 class PopArm(Arm):
@@ -200,7 +201,8 @@ class PopArm(Arm):
     budget = {"quick": 1500, "thorough": 15000}
     min_per_shard = 20
     required_labels = ("matrix", "scalar_weight", "non_square", "heterogeneous_params", "coupling_edge", "delay",
-                       "delay+spread", "two_populations", "second_translation:run", "second_translation:get_run_func")
+                       "delay+spread", "two_populations", "second_translation:run", "second_translation:get_run_func",
+                       "second_translation:run_in_place")
 
     def strategy(self, ctx):
         return pop_case()
@@ -270,7 +272,8 @@ class PopArm(Arm):
             circ = build_population_circuit(ps)
             wu = cfg.get("warmup")
             if wu:
-                # an earlier translation of the same PopulationTemplate / Connectivity objects (in_place=False: C14)
+                # an earlier translation of the same PopulationTemplate / Connectivity objects (on a copy, in_place=False,
+                # or on the objects themselves)
                 res.labels = sorted(set(res.labels) | {"second_translation:" + wu})
                 with warnings.catch_warnings():
                     warnings.simplefilter("ignore")
@@ -278,9 +281,9 @@ class PopArm(Arm):
                         circ.get_run_func("pv_warm", step_size=dt, solver="euler", verbose=False, clear=True, in_place=False,
                                           float_precision="float64", file_name="pv_gen_warm")
                     else:
-                        dtw = dt if wu == "run" else dt / 2
+                        dtw = dt / 2 if wu == "run_other_dt" else dt
                         circ.run(simulation_time=4 * dt, step_size=dtw, outputs=dict(outputs), solver="euler",
-                                 verbose=False, clear=True, in_place=False, float_precision="float64")
+                                 verbose=False, clear=True, in_place=(wu == "run_in_place"), float_precision="float64")
             with warnings.catch_warnings():
                 warnings.simplefilter("ignore")
                 df = circ.run(simulation_time=steps * dt, step_size=dt, outputs=dict(outputs), solver="euler",
